@@ -185,6 +185,29 @@ fn resolve_promise(
     fulfill_promise(interp, promise, value)
 }
 
+/// The reactions taken off a promise are no longer reachable through it: keep their
+/// callbacks and result promises (and the settled value) alive while they run one by one
+fn guard_reactions(
+    interp: &mut Interpreter,
+    handlers: &[crate::value::PromiseHandler],
+    value: &JsValue,
+) -> crate::gc::Guard<JsObject> {
+    let guard = interp.heap.create_guard();
+    for handler in handlers {
+        if let Some(JsValue::Object(f)) = &handler.on_fulfilled {
+            guard.guard(f.cheap_clone());
+        }
+        if let Some(JsValue::Object(f)) = &handler.on_rejected {
+            guard.guard(f.cheap_clone());
+        }
+        guard.guard(handler.result_promise.cheap_clone());
+    }
+    if let JsValue::Object(o) = value {
+        guard.guard(o.cheap_clone());
+    }
+    guard
+}
+
 /// Fulfill a promise with a value
 fn fulfill_promise(
     interp: &mut Interpreter,
@@ -208,6 +231,7 @@ fn fulfill_promise(
     };
 
     // Trigger handlers synchronously
+    let _reactions_guard = guard_reactions(interp, &handlers, &value);
     for handler in handlers {
         trigger_handler(interp, handler, &value, true)?;
     }
@@ -244,6 +268,7 @@ fn reject_promise(
     }
 
     // Trigger handlers synchronously
+    let _reactions_guard = guard_reactions(interp, &handlers, &reason);
     for handler in handlers {
         trigger_handler(interp, handler, &reason, false)?;
     }
